@@ -122,7 +122,17 @@ def operand(objs, o):
 
 
 def step(objs, st, o):
-    """returns the step's own result: ["new", k] | ["obs", outcome] | ["none"]"""
+    """returns the step's own result: ["new", k] | ["obs", outcome] | ["none"]; a step that leaves numpy's global error state changed
+    is reported as a failed step (the library is a guest in the process)"""
+    err0 = np.geterr()
+    res = _step(objs, st, o)
+    if np.geterr() != err0:
+        np.seterr(**err0)
+        return ["obs", ["raised", "GlobalNumpyStateChanged"]]
+    return res
+
+
+def _step(objs, st, o):
     k = st[0]
     if k == "new":
         objs.append(ER.build(st[1], o.get("via0", "flat")))
@@ -176,6 +186,8 @@ def step(objs, st, o):
         try:
             if name == "concat":
                 r = np.concatenate([a, objs[arg[0] - 1]], axis=int(arg[1]))
+            elif name == "concat1":
+                r = np.concatenate([a])
             elif name == "cumsum":
                 r = np.cumsum(a, axis=-1)
             elif name == "sort":
